@@ -141,10 +141,10 @@ BelievedIn(W, p, a) == IF ~Has(W, p) THEN "none"
                        ELSE IF W[p].m = a.m THEN a.h ELSE W[p].c
 
 (* ---------------- ghost ---------------------------------------------------- *)
-NoPre == [ws |-> EmptyF, cache |-> EmptyF, hist |-> EmptyF, fstab |-> EmptyF, tab |-> "absent", htorn |-> {}]
+NoPre == [ws |-> EmptyF, cache |-> EmptyF, hist |-> EmptyF, fstab |-> EmptyF, tab |-> "absent", htorn |-> {}, nodir |-> {}]
 G0 == [kind |-> "none", goal |-> "", pre |-> NoPre, execs |-> {}, dup |-> FALSE, baks |-> {}, takes |-> {}, tk |-> {},
        ever |-> {}, utd |-> EmptyF, sinceCrash |-> FALSE, expect |-> <<>>, nuser |-> 0,
-       ever0 |-> {}, utd0 |-> EmptyF, sc0 |-> FALSE]
+       ever0 |-> {}, utd0 |-> EmptyF, sc0 |-> FALSE, dirgone |-> FALSE]
 
 \* rules whose execution in this invocation was recorded by ruler: exit 0, every target produced, no contradiction reported
 Recorded(execs, errs) ==
@@ -156,7 +156,7 @@ Recorded(execs, errs) ==
 \* the fold: a function of the previous ghost, the event and the disk state after the event
 Fold(gg, e, W, C, H, T, D, scopeT) ==
   CASE e.a \in {"build", "clean"} ->
-         [gg EXCEPT !.kind = e.a, !.goal = e.g, !.pre = [ws |-> W, cache |-> C, hist |-> H, fstab |-> T, tab |-> D.tab, htorn |-> D.htorn],
+         [gg EXCEPT !.kind = e.a, !.goal = e.g, !.pre = [ws |-> W, cache |-> C, hist |-> H, fstab |-> T, tab |-> D.tab, htorn |-> D.htorn, nodir |-> D.nodir],
                     !.execs = {}, !.dup = FALSE, !.baks = {}, !.takes = {}, !.tk = {}, !.nuser = @ + 1,
                     !.expect = IF Has(e, "serial") THEN e.serial ELSE <<>>,
                     !.ever0 = gg.ever, !.sc0 = gg.sinceCrash,
@@ -181,7 +181,7 @@ Fold(gg, e, W, C, H, T, D, scopeT) ==
          ELSE [gg EXCEPT !.kind = "none", !.utd = IF e.verdict = "cleaned" THEN @ ELSE EmptyF]
     [] e.a = "crash" -> [gg EXCEPT !.kind = "none", !.ever = {}, !.utd = EmptyF, !.sinceCrash = TRUE]
     [] e.a = "delruler" -> [gg EXCEPT !.utd = EmptyF, !.ever = IF e.what \in {"all", "history"} THEN {} ELSE @, !.nuser = @ + 1]
-    [] OTHER -> [gg EXCEPT !.utd = EmptyF, !.nuser = @ + 1]     \* every other user-level action
+    [] OTHER -> [gg EXCEPT !.utd = EmptyF, !.nuser = @ + 1, !.dirgone = @ \/ e.a = "rmdir"]     \* every other user-level action
 
 \* every action ends with this: the event it produced and the ghost folded over it
 Emit(e) == /\ ev' = e
@@ -204,7 +204,7 @@ SetRules(rs) ==
 
 \* write a file in the workspace: edit / revert a source, tamper with a target
 Edit(p, c) ==
-  /\ Idle
+  /\ Idle /\ p \notin rdir.nodir
   /\ ws' = Put(ws, p, [c |-> c, m |-> clock + 1, x |-> IF Has(ws, p) THEN ws[p].x ELSE FALSE])
   /\ clock' = clock + 1 /\ UserFrame /\ UNCHANGED <<ord, rules, env, cache, hist, fstab, rdir>>
   /\ Emit([a |-> "edit", p |-> p, c |-> c])
@@ -219,10 +219,11 @@ DelCache(n) ==
   /\ clock' = clock + 1 /\ UserFrame /\ UNCHANGED <<ord, rules, env, ws, hist, fstab, rdir>>
   /\ Emit([a |-> "delcache", n |-> n])
 
-NoDir == [root |-> FALSE, cache |-> FALSE, hist |-> FALSE, tab |-> "absent", htorn |-> {}]
+\* nodir: the workspace paths whose directory the user has removed (nothing can be created there until it is made again)
+NoDir == [root |-> FALSE, cache |-> FALSE, hist |-> FALSE, tab |-> "absent", htorn |-> {}, nodir |-> {}]
 DelRuler(what) ==
   /\ Idle /\ rdir.root
-  /\ CASE what = "all"     -> cache' = EmptyF /\ hist' = EmptyF /\ fstab' = EmptyF /\ rdir' = NoDir
+  /\ CASE what = "all"     -> cache' = EmptyF /\ hist' = EmptyF /\ fstab' = EmptyF /\ rdir' = [NoDir EXCEPT !.nodir = rdir.nodir]
        [] what = "cache"   -> cache' = EmptyF /\ rdir' = [rdir EXCEPT !.cache = FALSE] /\ UNCHANGED <<hist, fstab>>
        [] what = "history" -> hist' = EmptyF /\ rdir' = [rdir EXCEPT !.hist = FALSE, !.htorn = {}] /\ UNCHANGED <<cache, fstab>>
        [] what = "table"   -> fstab' = EmptyF /\ rdir' = [rdir EXCEPT !.tab = "absent"] /\ UNCHANGED <<cache, hist>>
@@ -231,7 +232,7 @@ DelRuler(what) ==
 
 \* move a file over another path, keeping its stamp and mode (mv, cp -p): an old file can land on a target path
 Move(p, q) ==
-  /\ Idle /\ Has(ws, p) /\ p # q
+  /\ Idle /\ Has(ws, p) /\ p # q /\ q \notin rdir.nodir
   /\ ws' = Put(Del(ws, p), q, ws[p])
   /\ clock' = clock + 1 /\ UserFrame /\ UNCHANGED <<ord, rules, env, cache, hist, fstab, rdir>>
   /\ Emit([a |-> "mv", p |-> p, q |-> q])
@@ -244,6 +245,18 @@ Corrupt(what, rid) ==
      ELSE /\ Has(hist, rid) /\ rdir' = [rdir EXCEPT !.htorn = @ \cup {rid}] /\ hist' = Del(hist, rid) /\ UNCHANGED fstab
   /\ clock' = clock + 1 /\ UserFrame /\ UNCHANGED <<ord, rules, env, ws, cache>>
   /\ Emit([a |-> "corrupt", what |-> what, rid |-> rid])
+
+\* rm -r of a workspace directory (S: the paths in it), and making it again
+RmDir(d, S) ==
+  /\ Idle /\ S # {} /\ S \cap rdir.nodir = {}
+  /\ ws' = [p \in (DOMAIN ws) \ S |-> ws[p]] /\ rdir' = [rdir EXCEPT !.nodir = @ \cup S]
+  /\ clock' = clock + 1 /\ UserFrame /\ UNCHANGED <<ord, rules, env, cache, hist, fstab>>
+  /\ Emit([a |-> "rmdir", d |-> d])
+MkDir(d, S) ==
+  /\ Idle /\ S # {} /\ S \subseteq rdir.nodir
+  /\ rdir' = [rdir EXCEPT !.nodir = @ \ S]
+  /\ clock' = clock + 1 /\ UserFrame /\ UNCHANGED <<ord, rules, env, ws, cache, hist, fstab>>
+  /\ Emit([a |-> "mkdir", d |-> d])
 
 ChangeEnv(v) ==
   /\ Idle /\ env' = v
@@ -412,14 +425,14 @@ Take(t) ==
   /\ Live(t) /\ tl[t].pc = "take"
   /\ UNCHANGED <<ord, rules, env, hist, fstab, rdir, clock, mode, goal, plan, inbox, rxAlive, mj, merrs, mstat, mfst, early, verdict>>
   /\ LET l == tl[t]  r == RuleOf(t)  p == r.tg[l.i]  n == l.rem[l.i] IN
-     /\ IF Has(cache, n)
+     /\ IF Has(cache, n) /\ p \notin rdir.nodir
         THEN /\ ws' = Put(ws, p, cache[n]) /\ cache' = Del(cache, n)
              /\ SetL(t, Adv(t, [l EXCEPT !.res = Append(@, "RC"), !.i = l.i + 1], Put(ws, p, cache[n])))
-        ELSE /\ UNCHANGED <<ws, cache>>                                        \* somebody else took it
+        ELSE /\ UNCHANGED <<ws, cache>>                                        \* somebody else took it, or the target's directory is gone
              /\ IF "restore_race" \in Defects
                 THEN SetL(t, Fail(t, l, <<"ResolutionError", "CacheMalfunction", "">>))   \* pinned code
                 ELSE SetL(t, [l EXCEPT !.pc = "rechk"])
-     /\ Emit(StepEv(t, "take", [p |-> p, n |-> n, ok |-> Has(cache, n)]))
+     /\ Emit(StepEv(t, "take", [p |-> p, n |-> n, ok |-> Has(cache, n) /\ p \notin rdir.nodir]))
 
 \* execute_command, then update_to_match_system_file_state and RuleHistory::insert
 Exec(t) ==
@@ -428,7 +441,8 @@ Exec(t) ==
   /\ LET l == tl[t]  r == RuleOf(t)  rid == RuleId(r)
          srcOk == \A j \in DOMAIN r.src : Has(ws, r.src[j])
          sc == [j \in DOMAIN r.src |-> IF Has(ws, r.src[j]) THEN ws[r.src[j]].c ELSE "MISSING"]
-         runs == r.kind # "fail" /\ srcOk               \* the line that produces the outputs runs
+         dirOk == SeqSet(r.tg) \cap rdir.nodir = {}     \* a command cannot write into a directory that is not there
+         runs == r.kind # "fail" /\ srcOk /\ dirOk     \* the line that produces the outputs runs
          okc == runs /\ ~r.pf                           \* every line of the command exited 0
          written == IF runs THEN {i \in DOMAIN r.tg : i # r.omit} ELSE {}
          Nth(i) == Cardinality({j \in written : j <= i})
@@ -532,7 +546,7 @@ CrashInExec(t, k, how) ==
   /\ Live(t) /\ tl[t].pc = "exec"
   /\ LET r == RuleOf(t)
          sc == [j \in DOMAIN r.src |-> IF Has(ws, r.src[j]) THEN ws[r.src[j]].c ELSE "MISSING"]
-         runs == r.kind # "fail" /\ \A j \in DOMAIN r.src : Has(ws, r.src[j])
+         runs == r.kind # "fail" /\ (\A j \in DOMAIN r.src : Has(ws, r.src[j])) /\ SeqSet(r.tg) \cap rdir.nodir = {}
          written == {i \in DOMAIN r.tg : i # r.omit}
      IN /\ runs /\ k \in written
         /\ ws' = [p \in (DOMAIN ws) \cup {r.tg[i] : i \in {j \in written : j <= k}} |->
